@@ -542,3 +542,13 @@ Fixpoint qui_run (resets : bool) (tr : list tev) (m : qst) : option qst :=
   end.
 Definition quiesced_b (resets : bool) (tr : list tev) : bool :=
   match qui_run resets tr q0 with Some _ => true | None => false end.
+
+(* ---- the PCI reading ------------------------------------------------------------------- *)
+(* PciTransport::queue_unset is a deliberate no-op (the specification gives a PCI driver no way to take a
+   single queue back), so on that transport a queue_unset call quiesces nothing: the device stays live on
+   every registered queue until it is reset (status 0, or the reset that PciTransport::drop performs).
+   The monitor for this reading is the same monitor run on the event sequence with the queue_unset
+   events removed, dropping the transport counting as a reset. *)
+Definition is_unset (e : tev) : bool := match e with TQueueUnset _ => true | _ => false end.
+Definition no_unset (tr : list tev) : list tev := filter (fun e => negb (is_unset e)) tr.
+Definition quiesced_pci_b (tr : list tev) : bool := quiesced_b true (no_unset tr).
